@@ -546,3 +546,452 @@ VARIANTS += [
       replace=_sub(SCAN_FILTER, '\tdescriptor, _ := payloadMap["targetArtifact"].(map[string]interface{})\n',
                    '\tvar descriptor map[string]interface{}\n\tif len(content) < 4096 {\n\t\tdescriptor, _ = payloadMap["targetArtifact"].(map[string]interface{})\n\t}\n')),
 ]
+
+# ===== third pass: the known keys are held in a TABLE (map / slice / array, local or package-level) that the scan consults =====
+KNOWN8 = '"mediaType", "digest", "size", "urls", "annotations", "data", "platform", "artifactType"'
+
+# (held-out refactoring 1) package-level set, comma-ok lookup, single pass; the payload-level key is a named constant
+SCAN_TABLE_MAP = r'''// payloadTargetArtifactKey is the only attribute expected in the signed payload.
+const payloadTargetArtifactKey = "targetArtifact"
+
+// knownDescriptorAttributes are the attributes expected in the target artifact descriptor.
+var knownDescriptorAttributes = map[string]struct{}{
+	"mediaType":    {},
+	"digest":       {},
+	"size":         {},
+	"urls":         {},
+	"annotations":  {},
+	"data":         {},
+	"platform":     {},
+	"artifactType": {},
+}
+
+func areUnknownAttributesAdded(content []byte) []string {
+	var payloadMap map[string]interface{}
+	_ = json.Unmarshal(content, &payloadMap)
+	descriptor, _ := payloadMap[payloadTargetArtifactKey].(map[string]interface{})
+
+	unknownAttributes := make([]string, 0, len(descriptor)+len(payloadMap))
+	for k := range descriptor {
+		if _, known := knownDescriptorAttributes[k]; !known {
+			unknownAttributes = append(unknownAttributes, k)
+		}
+	}
+	for k := range payloadMap {
+		if k != payloadTargetArtifactKey {
+			unknownAttributes = append(unknownAttributes, k)
+		}
+	}
+	return unknownAttributes
+}
+
+'''
+
+# local bool-valued sets for both levels, value lookup, guard clause with continue
+SCAN_TABLE_BOOLMAP = r'''func areUnknownAttributesAdded(content []byte) []string {
+	expectedInDescriptor := map[string]bool{"mediaType": true, "digest": true, "size": true, "urls": true,
+		"annotations": true, "data": true, "platform": true, "artifactType": true}
+	expectedInPayload := map[string]bool{"targetArtifact": true}
+	var decoded map[string]any
+	_ = json.Unmarshal(content, &decoded)
+	target, _ := decoded["targetArtifact"].(map[string]any)
+	var extra []string
+	for name := range decoded {
+		if expectedInPayload[name] {
+			continue
+		}
+		extra = append(extra, name)
+	}
+	for name := range target {
+		if expectedInDescriptor[name] {
+			continue
+		}
+		extra = append(extra, name)
+	}
+	return extra
+}
+
+'''
+
+# package-level list searched by a hand-written loop that records the outcome in a flag (no break: the flag is a loop-carried phi)
+SCAN_TABLE_FLAG = r'''var descriptorAttributes = []string{''' + KNOWN8 + r'''}
+
+func areUnknownAttributesAdded(content []byte) []string {
+	var payloadMap map[string]interface{}
+	_ = json.Unmarshal(content, &payloadMap)
+	descriptor, _ := payloadMap["targetArtifact"].(map[string]interface{})
+	unknownAttributes := []string{}
+	for k := range descriptor {
+		known := false
+		for _, attribute := range descriptorAttributes {
+			if attribute == k {
+				known = true
+			}
+		}
+		if !known {
+			unknownAttributes = append(unknownAttributes, k)
+		}
+	}
+	for k := range payloadMap {
+		if k != "targetArtifact" {
+			unknownAttributes = append(unknownAttributes, k)
+		}
+	}
+	return unknownAttributes
+}
+
+'''
+FLAG_LOOP = '\t\tknown := false\n\t\tfor _, attribute := range descriptorAttributes {\n\t\t\tif attribute == k {\n\t\t\t\tknown = true\n\t\t\t}\n\t\t}\n\t\tif !known {\n\t\t\tunknownAttributes = append(unknownAttributes, k)\n\t\t}\n'
+# the same with break, index loop and the flag in the opposite sense, set by a switch
+FLAG_LOOP_BREAK = '\t\tunknown := true\n\t\tfor i := 0; i < len(descriptorAttributes); i++ {\n\t\t\tif k == descriptorAttributes[i] {\n\t\t\t\tunknown = false\n\t\t\t\tbreak\n\t\t\t}\n\t\t}\n\t\tif unknown {\n\t\t\tunknownAttributes = append(unknownAttributes, k)\n\t\t}\n'
+
+# module predicates over a table: lookup in a set / search loop over a list
+PRED_LOOKUP = 'var descriptorAttributeSet = map[string]struct{}{"mediaType": {}, "digest": {}, "size": {}, "urls": {}, "annotations": {}, "data": {}, "platform": {}, "artifactType": {}}\n\nfunc isDescriptorAttribute(name string) bool {\n\t_, found := descriptorAttributeSet[name]\n\treturn found\n}\n'
+PRED_SEARCH = 'var descriptorAttributeList = []string{' + KNOWN8 + '}\n\nfunc isDescriptorAttribute(name string) bool {\n\tfor _, attribute := range descriptorAttributeList {\n\t\tif attribute == name {\n\t\t\treturn true\n\t\t}\n\t}\n\treturn false\n}\n'
+PRED_SEARCH_FLAG = 'var descriptorAttributeList = []string{' + KNOWN8 + '}\n\nfunc isDescriptorAttribute(name string) bool {\n\tfound := false\n\tfor _, attribute := range descriptorAttributeList {\n\t\tfound = found || attribute == name\n\t}\n\treturn found\n}\n'
+
+# table-driven removal, then collect (the base shape with the eight delete statements folded into a loop over a table)
+SCAN_TABLE_DELETE = r'''var descriptorAttributes = []string{''' + KNOWN8 + r'''}
+
+func areUnknownAttributesAdded(content []byte) []string {
+	var targetArtifactMap map[string]interface{}
+	_ = json.Unmarshal(content, &targetArtifactMap)
+	descriptor, _ := targetArtifactMap["targetArtifact"].(map[string]interface{})
+
+	// Explicitly remove expected keys to check if any are left over
+	for _, attribute := range descriptorAttributes {
+		delete(descriptor, attribute)
+	}
+	delete(targetArtifactMap, "targetArtifact")
+
+	unknownAttributes := append(getKeySet(descriptor), getKeySet(targetArtifactMap)...)
+	return unknownAttributes
+}
+
+'''
+# the same driven by the keys of a package-level set
+SCAN_TABLE_DELETE_SET = _sub(_sub(SCAN_TABLE_DELETE, 'var descriptorAttributes = []string{' + KNOWN8 + '}', 'var descriptorAttributes = map[string]bool{"mediaType": true, "digest": true, "size": true, "urls": true, "annotations": true, "data": true, "platform": true, "artifactType": true}'),
+                             '\tfor _, attribute := range descriptorAttributes {\n', '\tfor attribute := range descriptorAttributes {\n')
+
+# package-level array, slices.Index / slices.BinarySearch
+SCAN_TABLE_ARRAY = r'''var descriptorAttributes = [...]string{"annotations", "artifactType", "data", "digest", "mediaType", "platform", "size", "urls"}
+
+func areUnknownAttributesAdded(content []byte) []string {
+	var payloadMap map[string]interface{}
+	_ = json.Unmarshal(content, &payloadMap)
+	descriptor, _ := payloadMap["targetArtifact"].(map[string]interface{})
+	var unknownAttributes []string
+	for k := range descriptor {
+		if slices.Index(descriptorAttributes[:], k) < 0 {
+			unknownAttributes = append(unknownAttributes, k)
+		}
+	}
+	for k := range payloadMap {
+		if k != "targetArtifact" {
+			unknownAttributes = append(unknownAttributes, k)
+		}
+	}
+	return unknownAttributes
+}
+
+'''
+# local set built from a local list by a loop
+SCAN_TABLE_BUILT = r'''func areUnknownAttributesAdded(content []byte) []string {
+	expected := make(map[string]struct{})
+	for _, attribute := range []string{''' + KNOWN8 + r'''} {
+		expected[attribute] = struct{}{}
+	}
+	var payloadMap map[string]interface{}
+	_ = json.Unmarshal(content, &payloadMap)
+	descriptor, _ := payloadMap["targetArtifact"].(map[string]interface{})
+	var unknownAttributes []string
+	for k := range descriptor {
+		if _, ok := expected[k]; ok {
+			continue
+		}
+		unknownAttributes = append(unknownAttributes, k)
+	}
+	for k := range payloadMap {
+		if k != "targetArtifact" {
+			unknownAttributes = append(unknownAttributes, k)
+		}
+	}
+	return unknownAttributes
+}
+
+'''
+IMPORT_STRINGS = (P, '\t"fmt"\n\t"time"\n', '\t"fmt"\n\t"strings"\n\t"time"\n')
+GROW_MAP = '// AllowDescriptorAttribute registers a further descriptor attribute.\nfunc AllowDescriptorAttribute(k string) {\n\tknownDescriptorAttributes[k] = struct{}{}\n}\n\n'
+
+VARIANTS += [
+ # ---- shape: the known keys are a package-level set, consulted by a comma-ok lookup (held-out refactoring 1)
+ dict(name='benign-scan-table-set-lookup', file=P, expect='silent', find=SCAN, replace=SCAN_TABLE_MAP,
+      why='a key is skipped only if it is in a map that only ever holds the eight descriptor JSON names'),
+ dict(name='benign-scan-table-local-bool-sets', file=P, expect='silent', find=SCAN, replace=SCAN_TABLE_BOOLMAP,
+      why='local bool-valued sets for both levels; table[key] is true only for a key of the map'),
+ dict(name='benign-scan-table-local-set-built-from-list', file=P, expect='silent', find=SCAN, replace=SCAN_TABLE_BUILT,
+      why='the set is filled from a literal list of constants'),
+ dict(name='table-set-has-extra-key', file=P, expect='flagged(scan/removes-only-descriptor-fields)', find=SCAN,
+      replace=_sub(SCAN_TABLE_MAP, '\t"artifactType": {},\n', '\t"artifactType": {},\n\t"subject":      {},\n')),
+ dict(name='table-set-has-target-artifact', file=P, expect='flagged(scan/removes-only-descriptor-fields)', find=SCAN,
+      replace=_sub(SCAN_TABLE_MAP, '\t"artifactType": {},\n', '\t"artifactType": {},\n\tpayloadTargetArtifactKey: {},\n')),
+ dict(name='table-set-can-grow', file=P, expect='flagged(scan/)', find=SCAN, replace=SCAN_TABLE_MAP + GROW_MAP),
+ dict(name='table-set-handed-out', file=P, expect='flagged(scan/)', find=SCAN,
+      replace=SCAN_TABLE_MAP + '// DescriptorAttributes returns the attributes a plugin may set.\nfunc DescriptorAttributes() map[string]struct{} {\n\treturn knownDescriptorAttributes\n}\n\n'),
+ dict(name='table-set-lookup-of-lowercased-key', expect='flagged(scan/)',
+      edits=[IMPORT_STRINGS, (P, SCAN, _sub(SCAN_TABLE_MAP, 'knownDescriptorAttributes[k]; !known', 'knownDescriptorAttributes[strings.ToLower(k)]; !known'))]),
+ dict(name='table-set-lookup-negation-lost', file=P, expect='flagged(scan/)', find=SCAN,
+      replace=_sub(SCAN_TABLE_MAP, 'knownDescriptorAttributes[k]; !known', 'knownDescriptorAttributes[k]; known')),
+ dict(name='table-set-payload-level-not-filtered-by-constant', file=P, expect='flagged(scan/)', find=SCAN,
+      replace=_sub(SCAN_TABLE_MAP, '\t\tif k != payloadTargetArtifactKey {\n', '\t\tif _, known := payloadMap[k+"!"]; known {\n')),
+ dict(name='table-bool-set-negation-lost', file=P, expect='flagged(scan/)', find=SCAN,
+      replace=_sub(SCAN_TABLE_BOOLMAP, '\t\tif expectedInDescriptor[name] {\n', '\t\tif !expectedInDescriptor[name] {\n')),
+ dict(name='table-bool-set-extended-while-scanning', file=P, expect='flagged(scan/)', find=SCAN,
+      replace=_sub(SCAN_TABLE_BOOLMAP, '\tfor name := range target {\n', '\tfor name := range decoded {\n\t\texpectedInDescriptor[name] = true\n\t}\n\tfor name := range target {\n')),
+ dict(name='table-bool-sets-swapped', file=P, expect='flagged(scan/removes-only-descriptor-fields)', find=SCAN,
+      replace=_sub(_sub(SCAN_TABLE_BOOLMAP, '\t\tif expectedInPayload[name] {\n', '\t\tif expectedInDescriptor[name] {\n'), '\t\tif expectedInDescriptor[name] {\n\t\t\tcontinue\n\t\t}\n\t\textra = append(extra, name)\n\t}\n\treturn', '\t\tif expectedInPayload[name] {\n\t\t\tcontinue\n\t\t}\n\t\textra = append(extra, name)\n\t}\n\treturn')),
+ dict(name='table-built-set-filled-from-payload', file=P, expect='flagged(scan/)', find=SCAN,
+      replace=_sub(SCAN_TABLE_BUILT, '\tvar payloadMap map[string]interface{}\n\t_ = json.Unmarshal(content, &payloadMap)\n', '\tvar payloadMap map[string]interface{}\n\t_ = json.Unmarshal(content, &payloadMap)\n\tfor attribute := range payloadMap {\n\t\texpected[attribute] = struct{}{}\n\t}\n')),
+ # ---- shape: the outcome of the search is recorded in a flag that is acted upon later
+ dict(name='benign-scan-table-search-loop-flag', file=P, expect='silent', find=SCAN, replace=SCAN_TABLE_FLAG,
+      why='the flag is reset for every key and set only where the key was compared equal to an element of the constant list'),
+ dict(name='benign-scan-table-search-loop-flag-inverted-break', file=P, expect='silent', find=SCAN, replace=_sub(SCAN_TABLE_FLAG, FLAG_LOOP, FLAG_LOOP_BREAK),
+      why='index loop with break, flag in the opposite sense'),
+ dict(name='flag-not-reset-per-key', file=P, expect='flagged(scan/)', find=SCAN,
+      replace=_sub(_sub(SCAN_TABLE_FLAG, '\t\tknown := false\n', ''), '\tfor k := range descriptor {\n', '\tknown := false\n\tfor k := range descriptor {\n')),
+ dict(name='flag-set-for-long-keys', file=P, expect='flagged(scan/)', find=SCAN,
+      replace=_sub(SCAN_TABLE_FLAG, '\t\t\tif attribute == k {\n', '\t\t\tif attribute == k || len(k) > 12 {\n')),
+ dict(name='flag-starts-true', file=P, expect='flagged(scan/)', find=SCAN,
+      replace=_sub(SCAN_TABLE_FLAG, '\t\tknown := false\n', '\t\tknown := len(descriptor) > 8\n')),
+ dict(name='flag-compares-case-insensitively', expect='flagged(scan/)',
+      edits=[IMPORT_STRINGS, (P, SCAN, _sub(SCAN_TABLE_FLAG, '\t\t\tif attribute == k {\n', '\t\t\tif strings.EqualFold(attribute, k) {\n'))]),
+ dict(name='flag-inverted-sense-lost', file=P, expect='flagged(scan/)', find=SCAN,
+      replace=_sub(_sub(SCAN_TABLE_FLAG, FLAG_LOOP, FLAG_LOOP_BREAK), '\t\tif unknown {\n', '\t\tif !unknown {\n')),
+ dict(name='flag-list-has-extra-key', file=P, expect='flagged(scan/removes-only-descriptor-fields)', find=SCAN,
+      replace=_sub(SCAN_TABLE_FLAG, '"platform", "artifactType"}', '"platform", "artifactType", "subject"}')),
+ # ---- shape: module predicate over a table
+ dict(name='benign-scan-filter-predicate-set-lookup', file=P, expect='silent', find=SCAN, replace=_sub(SCAN_FILTER_PRED, PRED_SWITCH, PRED_LOOKUP),
+      why='the predicate is the ok half of a lookup in a constant set'),
+ dict(name='benign-scan-filter-predicate-search-loop', file=P, expect='silent', find=SCAN, replace=_sub(SCAN_FILTER_PRED, PRED_SWITCH, PRED_SEARCH),
+      why='the predicate returns true only from inside a comparison with an element of a constant list'),
+ dict(name='benign-scan-filter-predicate-search-loop-flag', file=P, expect='silent', find=SCAN, replace=_sub(SCAN_FILTER_PRED, PRED_SWITCH, PRED_SEARCH_FLAG),
+      why='accumulated with ||'),
+ dict(name='predicate-set-has-extra-key', file=P, expect='flagged(scan/removes-only-descriptor-fields)', find=SCAN,
+      replace=_sub(_sub(SCAN_FILTER_PRED, PRED_SWITCH, PRED_LOOKUP), '"artifactType": {}}', '"artifactType": {}, "subject": {}}')),
+ dict(name='predicate-search-loop-prefix-match', expect='flagged(scan/)',
+      edits=[IMPORT_STRINGS, (P, SCAN, _sub(_sub(SCAN_FILTER_PRED, PRED_SWITCH, PRED_SEARCH), '\t\tif attribute == name {\n', '\t\tif strings.HasPrefix(name, attribute) {\n'))]),
+ dict(name='predicate-search-loop-default-true', file=P, expect='flagged(scan/)', find=SCAN,
+      replace=_sub(_sub(SCAN_FILTER_PRED, PRED_SWITCH, PRED_SEARCH), '\t\t\treturn true\n\t\t}\n\t}\n\treturn false\n', '\t\t\treturn true\n\t\t}\n\t}\n\treturn len(name) == 0\n')),
+ dict(name='predicate-search-loop-flag-starts-true-for-some', file=P, expect='flagged(scan/)', find=SCAN,
+      replace=_sub(_sub(SCAN_FILTER_PRED, PRED_SWITCH, PRED_SEARCH_FLAG), '\tfound := false\n', '\tfound := len(name) > 12\n')),
+ # ---- shape: table-driven removal, then collect
+ dict(name='benign-scan-table-driven-delete', file=P, expect='silent', find=SCAN, replace=SCAN_TABLE_DELETE,
+      why='the keys removed are elements of a constant list of descriptor JSON names'),
+ dict(name='benign-scan-table-driven-delete-set-keys', file=P, expect='silent', find=SCAN, replace=SCAN_TABLE_DELETE_SET,
+      why='the keys removed are keys of a constant set'),
+ dict(name='table-delete-list-has-extra-key', file=P, expect='flagged(scan/removes-only-descriptor-fields)', find=SCAN,
+      replace=_sub(SCAN_TABLE_DELETE, '"platform", "artifactType"}', '"platform", "artifactType", "subject"}')),
+ dict(name='table-delete-list-can-grow', file=P, expect='flagged(scan/removes-only-descriptor-fields)', find=SCAN,
+      replace=SCAN_TABLE_DELETE + '// AllowDescriptorAttribute registers a further descriptor attribute.\nfunc AllowDescriptorAttribute(k string) {\n\tdescriptorAttributes = append(descriptorAttributes, k)\n}\n\n'),
+ dict(name='table-delete-list-element-overwritten', file=P, expect='flagged(scan/removes-only-descriptor-fields)', find=SCAN,
+      replace=SCAN_TABLE_DELETE + '// RenameDescriptorAttribute replaces a descriptor attribute.\nfunc RenameDescriptorAttribute(i int, k string) {\n\tdescriptorAttributes[i] = k\n}\n\n'),
+ dict(name='table-delete-keys-of-the-payload', file=P, expect='flagged(scan/removes-only-descriptor-fields)', find=SCAN,
+      replace=_sub(SCAN_TABLE_DELETE, '\tfor _, attribute := range descriptorAttributes {\n', '\tfor attribute := range targetArtifactMap {\n')),
+ # ---- shape: package-level array searched with slices.Index / slices.BinarySearch
+ dict(name='benign-scan-table-array-slices-index', expect='silent', edits=[IMPORT_SLICES, (P, SCAN, SCAN_TABLE_ARRAY)],
+      why='the array is written nowhere; slices.Index(...) < 0 is false only for an element of it'),
+ dict(name='benign-scan-table-array-binary-search', expect='silent',
+      edits=[IMPORT_SLICES, (P, SCAN, _sub(SCAN_TABLE_ARRAY, '\t\tif slices.Index(descriptorAttributes[:], k) < 0 {\n', '\t\tif _, found := slices.BinarySearch(descriptorAttributes[:], k); !found {\n'))],
+      why='found means the element at the returned index equals the key'),
+ dict(name='table-array-index-test-off-by-one', expect='flagged(scan/)',
+      edits=[IMPORT_SLICES, (P, SCAN, _sub(SCAN_TABLE_ARRAY, 'slices.Index(descriptorAttributes[:], k) < 0 {', 'slices.Index(descriptorAttributes[:], k) < -1 {'))]),
+ dict(name='table-array-element-assigned-elsewhere', expect='flagged(scan/)',
+      edits=[IMPORT_SLICES, (P, SCAN, SCAN_TABLE_ARRAY + '// RenameDescriptorAttribute replaces a descriptor attribute.\nfunc RenameDescriptorAttribute(i int, k string) {\n\tdescriptorAttributes[i] = k\n}\n\n')]),
+ dict(name='table-array-has-extra-key', expect='flagged(scan/removes-only-descriptor-fields)',
+      edits=[IMPORT_SLICES, (P, SCAN, _sub(SCAN_TABLE_ARRAY, '"size", "urls"}', '"size", "subject", "urls"}'))]),
+ # ---- tightening: a local list literal consulted by slices.Contains must not be written through
+ dict(name='filter-scan-local-list-overwritten', expect='flagged(scan/)',
+      edits=[IMPORT_SLICES, (P, SCAN, _sub(_sub(SCAN_FILTER_MIXED, 'var descriptorAttributes = []string{' + KNOWN8 + '}\n\n', ''),
+                                         '\tvar unknownAttributes []string\n', '\tdescriptorAttributes := []string{' + KNOWN8 + '}\n\tvar unknownAttributes []string\n\tfor k := range payloadMap {\n\t\tdescriptorAttributes[0] = k\n\t}\n'))]),
+]
+
+# ---- shape: the table is handed to a helper (generic search function / method of a set type), once per level
+SCAN_TABLE_HELPER = r'''var descriptorAttributes = []string{''' + KNOWN8 + r'''}
+
+var payloadAttributes = []string{"targetArtifact"}
+
+func inTable(table []string, name string) bool {
+	for i := range table {
+		if table[i] == name {
+			return true
+		}
+	}
+	return false
+}
+
+func areUnknownAttributesAdded(content []byte) []string {
+	var payloadMap map[string]interface{}
+	_ = json.Unmarshal(content, &payloadMap)
+	descriptor, _ := payloadMap["targetArtifact"].(map[string]interface{})
+	var unknownAttributes []string
+	for k := range descriptor {
+		if !inTable(descriptorAttributes, k) {
+			unknownAttributes = append(unknownAttributes, k)
+		}
+	}
+	for k := range payloadMap {
+		if !inTable(payloadAttributes, k) {
+			unknownAttributes = append(unknownAttributes, k)
+		}
+	}
+	return unknownAttributes
+}
+
+'''
+SCAN_TABLE_SETTYPE = r'''type attributeSet map[string]struct{}
+
+func (s attributeSet) has(name string) bool {
+	_, ok := s[name]
+	return ok
+}
+
+var descriptorAttributes = attributeSet{"mediaType": {}, "digest": {}, "size": {}, "urls": {}, "annotations": {}, "data": {}, "platform": {}, "artifactType": {}}
+
+func areUnknownAttributesAdded(content []byte) []string {
+	payloadAttributes := attributeSet{"targetArtifact": {}}
+	var payloadMap map[string]interface{}
+	_ = json.Unmarshal(content, &payloadMap)
+	descriptor, _ := payloadMap["targetArtifact"].(map[string]interface{})
+	var unknownAttributes []string
+	for k := range descriptor {
+		if descriptorAttributes.has(k) {
+			continue
+		}
+		unknownAttributes = append(unknownAttributes, k)
+	}
+	for k := range payloadMap {
+		if payloadAttributes.has(k) {
+			continue
+		}
+		unknownAttributes = append(unknownAttributes, k)
+	}
+	return unknownAttributes
+}
+
+'''
+VARIANTS += [
+ dict(name='benign-scan-table-handed-to-search-helper', file=P, expect='silent', find=SCAN, replace=SCAN_TABLE_HELPER,
+      why='the helper only reads the table it is handed; per call the table is the caller\'s constant list'),
+ dict(name='benign-scan-table-set-type-with-method', file=P, expect='silent', find=SCAN, replace=SCAN_TABLE_SETTYPE,
+      why='the method is the ok half of a lookup in its receiver, which is a constant set at both call sites'),
+ dict(name='table-helper-levels-swapped', file=P, expect='flagged(scan/removes-only-descriptor-fields)', find=SCAN,
+      replace=_sub(_sub(SCAN_TABLE_HELPER, '!inTable(descriptorAttributes, k)', '!inTable(payloadAttributes, k)'), '\t\tif !inTable(payloadAttributes, k) {\n\t\t\tunknownAttributes = append(unknownAttributes, k)\n\t\t}\n\t}\n\treturn', '\t\tif !inTable(descriptorAttributes, k) {\n\t\t\tunknownAttributes = append(unknownAttributes, k)\n\t\t}\n\t}\n\treturn')),
+ dict(name='table-helper-writes-the-table', file=P, expect='flagged(scan/)', find=SCAN,
+      replace=_sub(SCAN_TABLE_HELPER, '\tfor i := range table {\n', '\tif len(table) > 8 {\n\t\ttable[8] = name\n\t}\n\tfor i := range table {\n')),
+ dict(name='table-helper-handed-the-payload-keys', file=P, expect='flagged(scan/)', find=SCAN,
+      replace=_sub(SCAN_TABLE_HELPER, '!inTable(descriptorAttributes, k)', '!inTable(getKeySet(payloadMap), k)')),
+ dict(name='table-helper-compares-length-only', file=P, expect='flagged(scan/)', find=SCAN,
+      replace=_sub(SCAN_TABLE_HELPER, '\t\tif table[i] == name {\n', '\t\tif len(table[i]) == len(name) {\n')),
+ dict(name='table-set-type-can-add', file=P, expect='flagged(scan/)', find=SCAN,
+      replace=SCAN_TABLE_SETTYPE + 'func (s attributeSet) add(name string) {\n\ts[name] = struct{}{}\n}\n\n// AllowDescriptorAttribute registers a further descriptor attribute.\nfunc AllowDescriptorAttribute(k string) {\n\tdescriptorAttributes.add(k)\n}\n\n'),
+ dict(name='table-set-type-has-ignores-case', expect='flagged(scan/)',
+      edits=[IMPORT_STRINGS, (P, SCAN, _sub(SCAN_TABLE_SETTYPE, '\t_, ok := s[name]\n', '\t_, ok := s[strings.ToLower(name)]\n'))]),
+ dict(name='table-set-type-local-set-has-extra-key', file=P, expect='flagged(scan/removes-only-descriptor-fields)', find=SCAN,
+      replace=_sub(SCAN_TABLE_SETTYPE, 'attributeSet{"targetArtifact": {}}', 'attributeSet{"targetArtifact": {}, "signingScheme": {}}')),
+]
+
+# ---- shape: the set is the result of a constructor function
+SET_CONSTRUCTOR = 'func newAttributeSet(names ...string) map[string]struct{} {\n\tset := make(map[string]struct{}, len(names))\n\tfor _, name := range names {\n\t\tset[name] = struct{}{}\n\t}\n\treturn set\n}\n\n'
+SCAN_TABLE_CONSTRUCTED = SET_CONSTRUCTOR + _sub(SCAN_TABLE_MAP, 'var knownDescriptorAttributes = map[string]struct{}{\n\t"mediaType":    {},\n\t"digest":       {},\n\t"size":         {},\n\t"urls":         {},\n\t"annotations":  {},\n\t"data":         {},\n\t"platform":     {},\n\t"artifactType": {},\n}\n',
+                                        'var knownDescriptorAttributes = newAttributeSet(' + KNOWN8 + ')\n')
+VARIANTS += [
+ dict(name='benign-scan-table-set-built-by-constructor', file=P, expect='silent', find=SCAN, replace=SCAN_TABLE_CONSTRUCTED,
+      why='the constructor inserts only elements of its variadic argument, a literal list of constants, and hands the map to nobody else'),
+ dict(name='benign-scan-table-local-set-built-by-constructor', file=P, expect='silent', find=SCAN,
+      replace=_sub(_sub(SCAN_TABLE_CONSTRUCTED, 'var knownDescriptorAttributes = newAttributeSet(' + KNOWN8 + ')\n', ''), '\tvar payloadMap map[string]interface{}\n', '\tknownDescriptorAttributes := newAttributeSet(' + KNOWN8 + ')\n\tvar payloadMap map[string]interface{}\n'),
+      why='same constructor, called in the scan itself'),
+ dict(name='constructed-set-has-extra-key', file=P, expect='flagged(scan/removes-only-descriptor-fields)', find=SCAN,
+      replace=_sub(SCAN_TABLE_CONSTRUCTED, 'newAttributeSet(' + KNOWN8 + ')', 'newAttributeSet(' + KNOWN8 + ', "subject")')),
+ dict(name='constructed-set-constructor-adds-lowercased', expect='flagged(scan/)',
+      edits=[IMPORT_STRINGS, (P, SCAN, _sub(SCAN_TABLE_CONSTRUCTED, '\t\tset[name] = struct{}{}\n', '\t\tset[name] = struct{}{}\n\t\tset[strings.ToLower(name)] = struct{}{}\n'))]),
+ dict(name='constructed-set-constructor-keeps-a-reference', file=P, expect='flagged(scan/)', find=SCAN,
+      replace='var allAttributeSets []map[string]struct{}\n\n' + _sub(SCAN_TABLE_CONSTRUCTED, '\treturn set\n}\n', '\tallAttributeSets = append(allAttributeSets, set)\n\treturn set\n}\n')),
+ dict(name='constructed-set-from-payload-keys', file=P, expect='flagged(scan/)', find=SCAN,
+      replace=_sub(_sub(SCAN_TABLE_CONSTRUCTED, 'var knownDescriptorAttributes = newAttributeSet(' + KNOWN8 + ')\n', ''), '\tunknownAttributes := make(', '\tknownDescriptorAttributes := newAttributeSet(getKeySet(payloadMap)...)\n\tunknownAttributes := make(')),
+]
+
+# ---- shape: the filtering loop of a level sits in a helper of the scan (generic: handed the map and the table; or one helper per level)
+SCAN_COLLECT_HELPER = r'''var knownDescriptorAttributes = map[string]struct{}{"mediaType": {}, "digest": {}, "size": {}, "urls": {}, "annotations": {}, "data": {}, "platform": {}, "artifactType": {}}
+
+var knownPayloadAttributes = map[string]struct{}{"targetArtifact": {}}
+
+func unknownKeys(object map[string]interface{}, known map[string]struct{}) []string {
+	var unknown []string
+	for k := range object {
+		if _, ok := known[k]; !ok {
+			unknown = append(unknown, k)
+		}
+	}
+	return unknown
+}
+
+func areUnknownAttributesAdded(content []byte) []string {
+	var payloadMap map[string]interface{}
+	_ = json.Unmarshal(content, &payloadMap)
+	descriptor, _ := payloadMap["targetArtifact"].(map[string]interface{})
+	return append(unknownKeys(descriptor, knownDescriptorAttributes), unknownKeys(payloadMap, knownPayloadAttributes)...)
+}
+
+'''
+# descriptor level in its own helper (guard clause for the empty map, switch), payload level by a loop of the scan that
+# continues the helper's result
+SCAN_COLLECT_MIXED = r'''func unknownDescriptorKeys(descriptor map[string]interface{}) []string {
+	if len(descriptor) == 0 {
+		return nil
+	}
+	unknown := make([]string, 0, len(descriptor))
+	for k := range descriptor {
+		switch k {
+		case "mediaType", "digest", "size", "urls", "annotations", "data", "platform", "artifactType":
+			continue
+		}
+		unknown = append(unknown, k)
+	}
+	return unknown
+}
+
+func areUnknownAttributesAdded(content []byte) []string {
+	var payloadMap map[string]interface{}
+	_ = json.Unmarshal(content, &payloadMap)
+	descriptor, _ := payloadMap["targetArtifact"].(map[string]interface{})
+	unknownAttributes := unknownDescriptorKeys(descriptor)
+	for k := range payloadMap {
+		if k != "targetArtifact" {
+			unknownAttributes = append(unknownAttributes, k)
+		}
+	}
+	return unknownAttributes
+}
+
+'''
+VARIANTS += [
+ dict(name='benign-scan-collector-helper-takes-map-and-table', file=P, expect='silent', find=SCAN, replace=SCAN_COLLECT_HELPER,
+      why='per call the helper reports every key of its map argument that is not in the constant set it is handed'),
+ dict(name='benign-scan-collector-helper-per-level-with-empty-guard', file=P, expect='silent', find=SCAN, replace=SCAN_COLLECT_MIXED,
+      why='the early return is taken only for a map without keys; the scan appends the payload level to the helper\'s result'),
+ dict(name='collector-helper-tables-swapped', file=P, expect='flagged(scan/removes-only-descriptor-fields)', find=SCAN,
+      replace=_sub(SCAN_COLLECT_HELPER, 'append(unknownKeys(descriptor, knownDescriptorAttributes), unknownKeys(payloadMap, knownPayloadAttributes)...)', 'append(unknownKeys(descriptor, knownPayloadAttributes), unknownKeys(payloadMap, knownDescriptorAttributes)...)')),
+ dict(name='collector-helper-same-level-twice', file=P, expect='flagged(scan/reports-both-levels)', find=SCAN,
+      replace=_sub(SCAN_COLLECT_HELPER, 'unknownKeys(payloadMap, knownPayloadAttributes)...)', 'unknownKeys(descriptor, knownDescriptorAttributes)...)')),
+ dict(name='collector-helper-table-is-the-payload', file=P, expect='flagged(scan/)', find=SCAN,
+      replace='func setOf(names []string) map[string]struct{} {\n\tset := map[string]struct{}{}\n\tfor _, name := range names {\n\t\tset[name] = struct{}{}\n\t}\n\treturn set\n}\n\n' + _sub(SCAN_COLLECT_HELPER, 'unknownKeys(descriptor, knownDescriptorAttributes)', 'unknownKeys(descriptor, setOf(getKeySet(payloadMap)))')),
+ dict(name='collector-helper-caps-the-report', file=P, expect='flagged(scan/)', find=SCAN,
+      replace=_sub(SCAN_COLLECT_HELPER, '\treturn unknown\n', '\treturn unknown[:min(len(unknown), 0)]\n')),
+ dict(name='collector-helper-guard-on-small-maps', file=P, expect='flagged(scan/)', find=SCAN,
+      replace=_sub(SCAN_COLLECT_MIXED, '\tif len(descriptor) == 0 {\n', '\tif len(descriptor) <= 8 {\n')),
+ dict(name='collector-helper-result-dropped-by-the-scan', file=P, expect='flagged(scan/reports-both-levels)', find=SCAN,
+      replace=_sub(SCAN_COLLECT_MIXED, '\tfor k := range payloadMap {\n', '\tunknownAttributes = unknownAttributes[:0]\n\tfor k := range payloadMap {\n')),
+ # ---- tightening: both levels are decided on the maps handed to the key-set helper, not on the printed form of the return
+ dict(name='scan-descriptor-level-reported-twice', file=P, expect='flagged(scan/reports-both-levels)',
+      find='\tunknownAttributes := append(getKeySet(descriptor), getKeySet(targetArtifactMap)...)', replace='\tunknownAttributes := append(getKeySet(descriptor), getKeySet(descriptor)...)'),
+]
